@@ -41,6 +41,10 @@ CLAIMS["C20"] = {"engine": "coherence", "ref": "DESIGN.md section 0.8 and 6/C20"
  "note": TABLE_NOTE + "Bounds: up to 3 type arguments; local / upstream / generic / fundamental-upstream structs (nested), u32, pairs, one impl parameter.",
  "technique": "TLA+ rule-vs-encoding specification, TLC exhaustive; spec->impl replay of the verdict table"}
 
+CLAIMS["C12"] = {"engine": "ground-slg", "ref": "DESIGN.md section 0.8 and 6/C12", "level": "fault_enumeration",
+ "text": "Crash-point enumeration on the engine model: SLG.tla has a Panic action enabled wherever a database callback can run (the strand ensure_root_answer holds in a local is recorded as lost) followed by DropState; TLC explores, for every program of the propositional family, every root goal and every engine event index k, the history <<solve whose callback panics instead of event k, solve>> (thorough: <<solve, panic, solve>>) and checks ResultsCorrectUnlessLost. The real SLG engine is driven with a panic injected into the database callbacks that precede event k: the call must report the panic, later calls must return the specified answer in exactly the specified number of engine steps, and the executions (with Panic/DropState) are validated against SLG.tla. The recursive solver (cache on/off) gets the panic at every callback and its later answers are compared with the program's meaning. Re-derives the genuine SLG defect (strand lost while held) as KNOWN-FINDING; the recursive solver's defect was repaired (fix: 8fb68be).",
+ "note": GROUND_NOTE + " One injected panic per history.", "technique": "TLA+ engine model with Panic action + TLC; crash-point replay on the real solvers (step-count lock-step); trace validation"}
+
 # properties without a check: reason (default below)
 NA_DEFAULT = ("not claimed yet: the specification module and conformance harness planned for it in DESIGN.md section 6 are not built; "
               "no check is registered rather than registering one that is not sound")
